@@ -51,7 +51,11 @@ def run(c):
             obs = [e for e in evs if e.get("ev") == "Observe" and e.get("exists")]
             observes += len(obs)
             if obs and obs[-1].get("count") != len(obs[-1].get("items") or []):
-                sig = "conc|%s|Observe|count-differs-from-scan" % wl
+                okc = {e.get("t") for e in evs if e.get("ev") == "CommitEnd" and e.get("ok")}
+                added = {e.get("k") for e in evs if e.get("ev") == "Op" and e.get("op") == "Add" and e.get("ok") and e.get("t") in okc}
+                have = {x["k"] for x in obs[-1].get("items") or []}
+                how = "count-exceeds-scan" if obs[-1].get("count") > len(have) else "count-below-scan"
+                sig = "conc|%s|Observe|%s:%s" % (wl, how, "committed-key-missing" if added - have else "all-committed-keys-present")
                 classes[sig] += 1
                 c.report(sig, "after concurrent %s writers: count %s != scan length %d" % (wl, obs[-1].get("count"), len(obs[-1].get("items") or [])),
                          dict(trace=n, schedule=h.get("sched"), program=h.get("program"), events=evs))
